@@ -495,6 +495,7 @@ func c13Worker(c *mc.Ctx) {
 	}
 	c13DirWorker(c, depth)
 	c13InProcess(c)
+	c13ParseOrder(c)
 	// (a) map-order seam: a separate binary built with every map range rewritten
 	bin := root.Path("bin", "loxmc-maporder")
 	if _, err := os.Stat(bin); err != nil {
@@ -656,6 +657,14 @@ func c13Replay(raw json.RawMessage) *mc.Violation {
 		}
 		return &mc.Violation{Property: "C13", Check: "C13", Kind: "map-order", Detail: strings.TrimSpace(string(out))}
 	}
+	var po struct {
+		Pkg   string `json:"parse_order_package"`
+		Order []int  `json:"order"`
+	}
+	json.Unmarshal(raw, &po)
+	if po.Pkg != "" {
+		return c13ParseOrderReplay(po.Pkg, po.Order)
+	}
 	var ip struct {
 		InProcess []string `json:"inprocess"`
 	}
@@ -700,7 +709,7 @@ func init() {
 		ID:    "C13",
 		Level: "model_checking",
 		Rule: "(a) map iteration order: every `range` over a built-in map in lox's non-test sources is rewritten at check time into a loop over keys the explorer orders (canonical order = default choice); for each specification the whole pipeline is executed under every schedule with one deviating dynamic occurrence (every non-identity permutation for maps of <= 3 keys, else reverse / rotate / swap-first / swap-last), under every site-uniform policy (reverse, rotate) of one site (thorough: two sites) and of all sites; generated files, --report text and diagnostics must hash to one value; states = dynamic map iterations, transitions = executions. " +
-			"(b) earlier runs: breadth-first search over directory states (the files of the package directory), events = run the REAL binary for grammar A / grammar B / A with _onBounds / A with two declarations exchanged / A split over two files (invoked as '.', by relative path and by absolute path from another directory; a run replaces the directory's source files and keeps its generated files), delete each *.gen.go, replace each *.gen.go by another configuration's, re-create the directory's files in the opposite order; every run must exit 0 and leave exactly the bytes a fresh directory gets; --report texts (also of three grammars that are refused for conflicts) are equal under the three invocations; non-trivial = one real run over a non-fresh directory",
+			"(b) earlier runs: breadth-first search over directory states (the files of the package directory), events = run the REAL binary for grammar A / grammar B / A with _onBounds / A with two declarations exchanged / A split over two files (invoked as '.', by relative path and by absolute path from another directory; a run replaces the directory's source files and keeps its generated files), delete each *.gen.go, replace each *.gen.go by another configuration's, re-create the directory's files in the opposite order; every run must exit 0 and leave exactly the bytes a fresh directory gets; --report texts (also of three grammars that are refused for conflicts) are equal under the three invocations; (c) every ordered pair of configurations generated in one process against a fresh process; (d) FileSet registration order: packages whose action methods are spread over three Go files (one result type spelled interface{} and any, an alias and its target, _onBounds and Token elsewhere) generated under every permutation of the order in which the files are parsed (the list handed to the type checker stays in name order), which packages.Load leaves to the goroutine scheduler: identical output required; non-trivial = one real run over a non-fresh directory",
 		Assume: []string{"libraries outside the repository (jet, go/types, gofmt, packages.Load) are exercised by the separate processes of (b), not explored", "a map whose keys have no canonical order would be reported as a cap (none today)"},
 		Worker: c13Worker,
 		Replay: c13Replay,
